@@ -25,6 +25,29 @@ from ..paths import Enumerator
 from ..terms import Terms, PathEnv
 
 
+def content_attr(cls):
+    """name of the attribute that holds the members: the list attribute of self that __init__ creates and the class itself
+    iterates / measures (__iter__, __len__) - found in the code, so that renaming it is not an event"""
+    init = cls.methods.get("__init__")
+    cands = []
+    if init is not None:
+        me = func_params(init)[0]
+        for s_ in stmts_of(init):
+            if isinstance(s_, ast.Assign) and len(s_.targets) == 1 and isinstance(s_.targets[0], ast.Attribute) and isinstance(s_.targets[0].value, ast.Name) \
+                    and s_.targets[0].value.id == me and (isinstance(s_.value, ast.List) or (isinstance(s_.value, ast.Call) and access_path(s_.value.func) == "list")):
+                cands.append(s_.targets[0].attr)
+    if len(cands) > 1:
+        used = set()
+        for mn in ("__len__", "__iter__", "__getitem__"):
+            f_ = cls.methods.get(mn)
+            if f_ is not None:
+                used |= {n.attr for n in ast.walk(f_) if isinstance(n, ast.Attribute) and isinstance(n.value, ast.Name) and n.value.id == func_params(f_)[0]}
+        cands = [c for c in cands if c in used] or cands
+    if len(cands) != 1:
+        raise AnalysisError("the member list of %s is not identified (candidates %s)" % (cls.name, cands))
+    return cands[0]
+
+
 def drop_outside_domain(paths, var, domain):
     """drop paths on which `var == c` was decided False for every c of the domain since var's last assignment"""
     out = []
@@ -79,7 +102,7 @@ def check_add(ctx, repo, cls):
         raise AnalysisError("Archive.add not found")
     C = "Archive.add"
     selfn, new = func_params(fn)[:2]
-    content = selfn + "._contents"
+    content = selfn + "." + content_attr(cls)
     # the scan loop and the verdict variable
     loops = [s for s in stmts_of(fn) if isinstance(s, ast.For)]
     scan = None
@@ -286,7 +309,7 @@ def check_truncate(ctx, repo, cls):
     selfn = ps[0]
     size = ps[1] if len(ps) > 1 else None
     getter = ps[2] if len(ps) > 2 else None
-    content = selfn + "._contents"
+    content = selfn + "." + content_attr(cls)
     from ..terms import PathEnv as _PE
     npaths = 0
     bad = unknown = None
@@ -454,7 +477,7 @@ def check_ownership(ctx, repo, cls):
     offenders = []
     for name, fn in cls.methods.items():
         selfn = func_params(fn)[0] if func_params(fn) else "self"
-        content = selfn + "._contents"
+        content = selfn + "." + content_attr(cls)
         for s in stmts_of(fn):
             hit = False
             for t in store_targets(s):
@@ -471,7 +494,7 @@ def check_ownership(ctx, repo, cls):
     # other modules
     for m in repo.modules.values():
         for n in ast.walk(m.tree):
-            if isinstance(n, ast.Attribute) and n.attr == "_contents" and m is not mod:
+            if isinstance(n, ast.Attribute) and n.attr == content_attr(cls) and m is not mod:
                 offenders.append((n, n, m.name + " (foreign module)"))
     if offenders:
         fn, s, name = offenders[0]
@@ -487,7 +510,7 @@ def check_ownership(ctx, repo, cls):
         selfn = func_params(fn)[0]
         deleg = [c for c in calls_in(fn) if access_path(c.func) in (selfn + ".add", selfn + ".append", selfn + ".extend", selfn + ".__iadd__")
                  and access_path(c.func) != selfn + "." + name]
-        writes = any(method_call(c) and access_path(method_call(c)[0]) == selfn + "._contents" for c in calls_in(fn))
+        writes = any(method_call(c) and access_path(method_call(c)[0]) == selfn + "." + content_attr(cls) for c in calls_in(fn))
         ctx.check3(True if deleg else (False if writes else None), "R5", "Archive.%s" % name, where(mod, fn), "inserts through add() (dominance-tested)",
                    "members are put into the content list without the dominance test of add()", "insertion path not recognised", key="delegation")
 
